@@ -190,10 +190,58 @@ Section P.
   Definition D (st : state) (k : nat) : Z := den (alive st) (store st) k.
   Definition Dsrc (st : state) (s : src) : Z := dsrc (alive st) (store st) s.
 
-  (* the remembered (source, value) pairs determine the value: on every store on which the
-     remembered sources have the remembered values, the function returns v *)
+  (* the reads a function performs, in order, with the values read *)
+  Fixpoint preads (dn : nat -> Z) (al : Z -> bool) (sto : Z -> Z -> Z) (j : nat) (e : expr) : list (src * Z) :=
+    match e with
+    | Const _ => []
+    | Obs o nm => if al o then [(SObs o nm, sto o nm)] else []
+    | Comp k => if (k <? j)%nat && al (cown k) then [(SComp k, dn k)] else []
+    | Add a b => preads dn al sto j a ++ preads dn al sto j b
+    | If c a b => preads dn al sto j c ++
+                  (if pev dn al sto j c =? 0 then preads dn al sto j b else preads dn al sto j a)
+    end.
+  Definition reads_of (al : Z -> bool) (sto : Z -> Z -> Z) (j : nat) : list (src * Z) :=
+    preads (den al sto) al sto j (d_expr (cdef_at prog j)).
+
+  (* the values read determine the result and the reads themselves *)
+  Lemma preads_det : forall al sto0 sto' j e,
+    (forall s x, In (s, x) (preads (den al sto0) al sto0 j e) -> dsrc al sto' s = x) ->
+    pev (den al sto') al sto' j e = pev (den al sto0) al sto0 j e /\
+    preads (den al sto') al sto' j e = preads (den al sto0) al sto0 j e.
+  Proof.
+    intros al sto0 sto' j. induction e as [z|o nm|k|a IHa b IHb|c IHc a IHa b IHb]; simpl; intros H.
+    - auto.
+    - destruct (al o) eqn:E; auto. specialize (H (SObs o nm) (sto0 o nm) (or_introl eq_refl)). simpl in H.
+      rewrite H. auto.
+    - destruct ((k <? j)%nat && al (cown k)) eqn:E; auto.
+      specialize (H (SComp k) (den al sto0 k) (or_introl eq_refl)). simpl in H. rewrite H. auto.
+    - destruct IHa as [A1 A2]; [intros; apply H; apply in_or_app; auto|].
+      destruct IHb as [B1 B2]; [intros; apply H; apply in_or_app; auto|].
+      rewrite A1, A2, B1, B2. auto.
+    - destruct IHc as [C1 C2]; [intros; apply H; apply in_or_app; auto|].
+      rewrite C1, C2. destruct (pev (den al sto0) al sto0 j c =? 0).
+      + destruct IHb as [B1 B2]; [intros; apply H; apply in_or_app; auto|]. rewrite B1, B2. auto.
+      + destruct IHa as [A1 A2]; [intros; apply H; apply in_or_app; auto|]. rewrite A1, A2. auto.
+  Qed.
+
+  (* the remembered (source, value) pairs are exactly the reads of an evaluation on some store sto0
+     (the store of the last evaluation), with the values read, and v is its result *)
   Definition RD (al : Z -> bool) (j : nat) (P : pdict) (v : Z) : Prop :=
-    forall sto', (forall s x, In (s, x) (flat P) -> dsrc al sto' s = x) -> den al sto' j = v.
+    exists sto0, (forall p, In p (flat P) <-> In p (reads_of al sto0 j)) /\ v = den al sto0 j.
+
+  (* hence they determine the value: on every store on which the remembered sources have the
+     remembered values, the function returns v (and performs the same reads) *)
+  Lemma RD_det : forall al j P v, RD al j P v ->
+    forall sto', (forall s x, In (s, x) (flat P) -> dsrc al sto' s = x) ->
+    den al sto' j = v /\ (forall p, In p (flat P) <-> In p (reads_of al sto' j)).
+  Proof.
+    intros al j P v [sto0 [Hp Hv]] sto' H.
+    destruct (preads_det al sto0 sto' j (d_expr (cdef_at prog j))) as [E1 E2].
+    { intros s x Hin. apply H. apply Hp. exact Hin. }
+    split.
+    - rewrite den_unfold, E1, Hv, den_unfold. reflexivity.
+    - intro p. unfold reads_of. rewrite E2. apply Hp.
+  Qed.
 
   (* ---------------------------------------------------------------- the invariant *)
   Record G (st : state) : Prop := {
@@ -345,6 +393,35 @@ Section P.
 
   Lemma notify_id : forall st s, (forall d, In d (subs st s) -> dirty st d = true) -> notify prog st s = st.
   Proof. intros. unfold notify. apply fold_sd_id. assumption. Qed.
+
+  (* a notification touches nothing but dirty flags *)
+  Definition nodirty_eq (st st' : state) : Prop :=
+    store st' = store st /\ alive st' = alive st /\ first st' = first st /\ value st' = value st /\
+    count st' = count st /\ parents st' = parents st /\ subs st' = subs st /\ ps st' = ps st.
+
+  Lemma sd_frame : forall f st c, nodirty_eq st (set_dirty prog f st c).
+  Proof.
+    assert (R : forall st, nodirty_eq st st) by (intro; unfold nodirty_eq; repeat split; auto).
+    assert (T : forall a b c, nodirty_eq a b -> nodirty_eq b c -> nodirty_eq a c).
+    { intros a b c (A1 & A2 & A3 & A4 & A5 & A6 & A7 & A8) (B1 & B2 & B3 & B4 & B5 & B6 & B7 & B8).
+      unfold nodirty_eq. repeat split; congruence. }
+    induction f as [|f IH]; intros st c; simpl; auto.
+    destruct (negb (c <? n)%nat); auto. destruct (negb (alive st (cown c))); auto.
+    destruct (dirty st c); auto.
+    assert (H : forall l s, nodirty_eq s (fold_left (set_dirty prog f) l s)).
+    { induction l as [|d l IHl]; intros s; simpl; auto. eapply T; [apply IH|apply IHl]. }
+    eapply T; [|apply H]. unfold nodirty_eq. repeat split; auto.
+  Qed.
+
+  Lemma notify_frame : forall st s, nodirty_eq st (notify prog st s).
+  Proof.
+    intros st s. unfold notify. generalize (subs st s). intro l. revert st.
+    induction l as [|d l IH]; intros st; simpl.
+    - unfold nodirty_eq. repeat split; auto.
+    - destruct (sd_frame n st d) as (A1 & A2 & A3 & A4 & A5 & A6 & A7 & A8).
+      destruct (IH (set_dirty prog n st d)) as (B1 & B2 & B3 & B4 & B5 & B6 & B7 & B8).
+      unfold nodirty_eq. repeat split; congruence.
+  Qed.
 
   Lemma G_ps : forall st l, G st -> G (upd_ps st l).
   Proof. intros st l []. constructor; simpl; auto. Qed.
@@ -645,6 +722,75 @@ Section P.
           * split; [eapply same_hi_trans; eauto|]. repeat split; congruence.
     Qed.
 
+    (* what the evaluation adds to Computed.parents is exactly what the function reads *)
+    Lemma ev_reads : forall j, (j <= f)%nat -> (j < n)%nat -> forall e st,
+      G st -> RDs j st -> dirty st j = true -> Kinv j st ->
+      let '(st', v) := ev prog (callf prog f) j e st in
+      (forall p, In p (flat (parents st' j)) ->
+                 In p (flat (parents st j)) \/ In p (preads (D st) (alive st) (store st) j e)) /\
+      (forall p, In p (preads (D st) (alive st) (store st) j e) -> In p (flat (parents st' j))).
+    Proof.
+      intros j Hjf Hjn. induction e as [z|o nm|k|a IHa b IHb|c IHc a IHa b IHb]; intros st HG HR Hd HK.
+      - simpl. split; [auto|intros p []].
+      - simpl. rewrite (g_alive _ HG o). simpl. rewrite updn_same. split.
+        + intros p H. apply in_flat_padd_inv in H. destruct H as [H|H]; [right; left; auto|left; exact H].
+        + intros p [H|[]]. subst p. apply in_flat_padd_new.
+      - simpl. destruct ((k <? j)%nat && alive st (cown k)) eqn:Ec; [|split; [auto|intros p []]].
+        apply andb_true_iff in Ec. destruct Ec as [Ekj Eal]. apply Nat.ltb_lt in Ekj.
+        unfold read_comp.
+        pose proof (IHf st k j ltac:(lia) ltac:(lia) Ekj HG HR) as H.
+        destruct (callf prog f st k) as [st1 v]. destruct H as (G1 & R1 & Ev & Dk & Vk & HS & Hc).
+        assert (Ep : parents st1 j = parents st j).
+        { destruct HS as (_ & _ & A3 & _). apply A3. lia. }
+        set (st2 := add_parent prog st1 j (SComp k) v).
+        assert (E3 : parents (if first st k || negb (v =? value st k) then notify prog st2 (SComp k) else st2) j
+                     = padd (parents st j) (cown k) (SComp k) v).
+        { assert (E2 : parents st2 j = padd (parents st j) (cown k) (SComp k) v).
+          { unfold st2. simpl. rewrite updn_same, Ep. reflexivity. }
+          destruct (first st k || negb (v =? value st k)); auto.
+          destruct (notify_frame st2 (SComp k)) as (_ & _ & _ & _ & _ & E & _). rewrite E. exact E2. }
+        rewrite E3. split.
+        + intros p H. apply in_flat_padd_inv in H. destruct H as [H|H]; [right; left; congruence|left; exact H].
+        + intros p [H|[]]. subst p. rewrite <- Ev. apply in_flat_padd_new.
+      - simpl. pose proof (ev_ok j Hjf Hjn a st HG HR Hd HK) as Ha. specialize (IHa st HG HR Hd HK).
+        destruct (ev prog (callf prog f) j a st) as [st1 va].
+        destruct Ha as (G1 & R1 & K1 & V1 & M1 & Det1 & S1 & D1 & _).
+        assert (Es : store st1 = store st) by apply S1.
+        assert (Ea : alive st1 = alive st) by apply S1.
+        pose proof (ev_ok j Hjf Hjn b st1 G1 R1 D1 K1) as Hb. specialize (IHb st1 G1 R1 D1 K1).
+        destruct (ev prog (callf prog f) j b st1) as [st2 vb].
+        destruct Hb as (_ & _ & _ & _ & M2 & _).
+        unfold D in IHb. rewrite Es, Ea in IHb. fold (D st) in IHb.
+        destruct IHa as [A1 A2]. destruct IHb as [B1 B2]. split.
+        + intros p H. apply B1 in H. destruct H as [H|H].
+          * apply A1 in H. destruct H; auto. right. apply in_or_app. auto.
+          * right. apply in_or_app. auto.
+        + intros p H. apply in_app_or in H. destruct H as [H|H]; auto.
+      - simpl. pose proof (ev_ok j Hjf Hjn c st HG HR Hd HK) as Hc. specialize (IHc st HG HR Hd HK).
+        destruct (ev prog (callf prog f) j c st) as [st1 vc].
+        destruct Hc as (G1 & R1 & K1 & V1 & M1 & Det1 & S1 & D1 & _).
+        assert (Es : store st1 = store st) by apply S1.
+        assert (Ea : alive st1 = alive st) by apply S1.
+        rewrite <- V1. destruct IHc as [C1 C2].
+        destruct (vc =? 0).
+        + pose proof (ev_ok j Hjf Hjn b st1 G1 R1 D1 K1) as Hb. specialize (IHb st1 G1 R1 D1 K1).
+          destruct (ev prog (callf prog f) j b st1) as [st2 vb].
+          destruct Hb as (_ & _ & _ & _ & M2 & _).
+          unfold D in IHb. rewrite Es, Ea in IHb. fold (D st) in IHb. destruct IHb as [B1 B2]. split.
+          * intros p H. apply B1 in H. destruct H as [H|H].
+            -- apply C1 in H. destruct H; auto. right. apply in_or_app. auto.
+            -- right. apply in_or_app. auto.
+          * intros p H. apply in_app_or in H. destruct H as [H|H]; auto.
+        + pose proof (ev_ok j Hjf Hjn a st1 G1 R1 D1 K1) as Hb. specialize (IHa st1 G1 R1 D1 K1).
+          destruct (ev prog (callf prog f) j a st1) as [st2 vb].
+          destruct Hb as (_ & _ & _ & _ & M2 & _).
+          unfold D in IHa. rewrite Es, Ea in IHa. fold (D st) in IHa. destruct IHa as [B1 B2]. split.
+          * intros p H. apply B1 in H. destruct H as [H|H].
+            -- apply C1 in H. destruct H; auto. right. apply in_or_app. auto.
+            -- right. apply in_or_app. auto.
+          * intros p H. apply in_app_or in H. destruct H as [H|H]; auto.
+    Qed.
+
     Lemma G_remove_parents : forall st j, G st -> dirty st j = true -> G (remove_parents prog st j).
     Proof.
       intros st j HG Hd. destruct HG.
@@ -711,7 +857,9 @@ Section P.
       { intros s x H. unfold sta in H. simpl in H. rewrite updn_same in H. destruct H. }
       assert (Sa : same_hi (S j) st1 sta) by apply same_hi_remove_parents.
       pose proof (ev_ok j Hjf Hjn (d_expr (cdef_at prog j)) sta Ga Ra Hd Ka) as H.
+      pose proof (ev_reads j Hjf Hjn (d_expr (cdef_at prog j)) sta Ga Ra Hd Ka) as Hrd.
       destruct (ev prog (callf prog f) j (d_expr (cdef_at prog j)) sta) as [stb v].
+      destruct Hrd as [Rd1 Rd2].
       destruct H as (Gb & Rb & Kb & Vb & Mb & Detb & Sb & Db & Fb & Valb & Cb).
       assert (Sab : same_hi (S j) st1 stb) by (eapply same_hi_trans; eauto).
       assert (Esb : store stb = store st1) by apply Sab.
@@ -737,8 +885,12 @@ Section P.
       { intros i Hi Hfi. change (first stb i = false) in Hfi.
         change (RD (alive stb) i (parents stb i) (value st3 i)). rewrite Ev3.
         destruct (Nat.eqb i j) eqn:E.
-        - apply Nat.eqb_eq in E. subst i. intros sto' H. rewrite den_unfold. rewrite Eab.
-          apply Detb. intros s x Hin. change (alive sta) with (alive st1). rewrite <- Eab. apply H. exact Hin.
+        - apply Nat.eqb_eq in E. subst i. exists (store st1). rewrite Eab. split.
+          + intro p. unfold reads_of. split; intro Hp.
+            * destruct (Rd1 p Hp) as [Hq|Hq]; [|exact Hq].
+              unfold sta in Hq. simpl in Hq. rewrite updn_same in Hq. destruct Hq.
+            * apply Rd2. exact Hp.
+          + rewrite Vb. rewrite den_unfold. reflexivity.
         - apply Nat.eqb_neq in E. destruct (Nat.lt_ge_cases i j) as [Hlt|Hge].
           + apply Rb; auto.
           + destruct Sab as (_ & _ & A3 & _). destruct (A3 i ltac:(lia)) as (_ & E2 & E3 & _ & E5).
@@ -762,7 +914,7 @@ Section P.
       intros st j m Hjf Hjn Hjm HG HR. simpl.
       destruct (dirty st j) eqn:Ed; simpl.
       2:{ split; auto. split; auto. split.
-          { symmetry. apply (HR j Hjm (g_clean_first _ HG j Ed) (store st)).
+          { symmetry. apply (RD_det _ _ _ _ (HR j Hjm (g_clean_first _ HG j Ed)) (store st)).
             intros s x H. exact (g_clean_val _ HG j s x Ed H). }
           split; auto. split; auto. split; [apply same_hi_refl|]. intros _. split; auto.
           eapply g_clean_first; eauto. }
@@ -821,7 +973,7 @@ Section P.
               rewrite E5 in H. destruct (C1 _ _ H) as [_ Hk]. apply Hk. reflexivity. }
           split; [eapply RDs_ext; [| |exact R1]; [reflexivity|]; intros; auto|].
           assert (Hv : value st1 j = D st j).
-          { rewrite E3. symmetry. apply (HR j Hjm Ef (store st)). intros s x H. apply C1. exact H. }
+          { rewrite E3. symmetry. apply (RD_det _ _ _ _ (HR j Hjm Ef) (store st)). intros s x H. apply C1. exact H. }
           split; [exact Hv|]. split; [rewrite Ed3, Nat.eqb_refl; reflexivity|]. split; [reflexivity|].
           split; [|intro; discriminate].
           eapply same_hi_trans; [eapply same_hi_mono; [|exact S1]; lia|].
@@ -896,9 +1048,9 @@ Section P.
         assert (Hfk : first st1 k = false) by (eapply g_clean_first; eauto).
         pose proof (HR k Hkn Hfk) as HRk.
         assert (H2 : den (alive st1) (store st2) k = value st1 k).
-        { apply HRk. intros s' x' H'. exact (IH k Hkj Hck s' x' H'). }
+        { apply (RD_det _ _ _ _ HRk). intros s' x' H'. exact (IH k Hkj Hck s' x' H'). }
         assert (H1 : den (alive st1) (store st1) k = value st1 k).
-        { apply HRk. intros s' x' H'. exact (g_clean_val _ HG k s' x' Hck H'). }
+        { apply (RD_det _ _ _ _ HRk). intros s' x' H'. exact (g_clean_val _ HG k s' x' Hck H'). }
         pose proof (g_clean_val _ HG j _ x Hc H) as H3. simpl in H3. unfold Dsrc. simpl.
         transitivity (value st1 k); [exact H2|congruence]. }
     split.
